@@ -47,7 +47,7 @@ func probeFixesInner() string {
 		store := memory.New()
 		fdb := NewFaultDB(store)
 		sc := &Scenario{}
-		n := &Node{sc: sc, fdb: fdb, bc: sc.open(fdb)}
+		n := newNode(sc, fdb)
 		if err := lib.StoreOn(n.bc, b0); err != nil {
 			panic(fmt.Sprintf("probe: %v", err))
 		}
